@@ -133,6 +133,10 @@ func init() {
 				Bound: "each of 13 directive keys with an argument of arbitrary kind (symbolic-kind scalar with ints in [-2,5], 16 directive/path strings, [], {}, [s], [str], {a:s}, [{a:1},x], {$match:{},$path:a}) at 7 positions (root, nested map, nested with siblings, list entry, list entry with sibling, two levels down, host under its own key), alone and as the upper of two layers; engine-enforced: no reachable panic, every path within 5e6 instructions and 20000 frames"},
 			{Pkg: "bkl", Func: "HarnessC08_strings", Tiers: "qt", Covers: []string{"fuzz.error", "fuzz.output"},
 				Bound: "16 directive-shaped strings as value, list entry, key, nested key and $value argument, next to a second such string"},
+			{Pkg: "bkl", Func: "HarnessC08_selfref", Tiers: "qt", Samples: 12, Covers: []string{"selfref.checked"},
+				Bound: "a map or list that names itself as the subtree to merge in / be replaced by - directly, through a second node, through the enclosing node, list form, two lists merging each other, a list entry merging its list - next to a list (so that an in-place expansion doubles it): reported as an error within the instruction and allocation budgets"},
+			{Pkg: "bkl", Func: "HarnessC08_yamlalias", Tiers: "qt", Samples: 5, Covers: []string{"yamlalias.checked"},
+				Bound: "YAML texts whose anchored node contains an alias to itself (4 shapes) are refused with an error, repeated non-cyclic aliases are accepted; the YAML decoder is the engine's native boundary: decided by the native replay of all 5 paths (a crash of the replay is the violation)"},
 			{Pkg: "bkl", Func: "HarnessC08_interp", Tiers: "qt", Covers: []string{"interp.cyclic", "interp.acyclic"},
 				Bound: "two interpolation strings a, b with 1-3 references each to a, b or a plain leaf, in every combination: every cycle reported as an error, every evaluation within the instruction budget; acyclic ones accepted"},
 			{Pkg: "bkl", Func: "HarnessC03_cycle", Tiers: "qt", Covers: []string{"cycle.checked"},
@@ -146,6 +150,8 @@ func init() {
 	reg(propSpec{
 		ID: "C11",
 		Harnesses: []harnessSpec{
+			{Pkg: "bkl", Func: "HarnessC11_dupmarkers", Tiers: "qt", Covers: []string{"dupmarkers.checked"},
+				Bound: "a list carrying its $output marker entry 2-3 times (front, middle, back) around two entries of depth <= 1, in a plain or a hidden parent: same outputs as with the marker once, no marker in any output"},
 			{Pkg: "bkl", Func: "HarnessC11_output", Tiers: "qt", Covers: []string{"out.one", "out.multi", "out.none"},
 				Bound: "one document of depth <= 2 (quick) / 3 (thorough): maps over {a,b} with $output true/false/absent, lists <= 2 with a marker entry true/false/absent at front or back; distinct concrete leaves"},
 			{Pkg: "bkl", Func: "HarnessC11_stream", Tiers: "qt", Covers: []string{"out.one", "out.multi", "out.none"},
@@ -172,6 +178,8 @@ func init() {
 				Bound: "one document with numbers at the top level, inside a list, inside a map inside a list and inside an array of tables, delivered as JSON (json.Number), TOML (int64/float64, []map[string]any) and YAML (node tree): all 9 format pairs canonicalise to the same tree with Go int / float64 leaves, for every two int64 and every finite double"},
 			{Pkg: "bkl", Func: "HarnessC04_streams", Tiers: "qt", Samples: 24, Covers: []string{"streams.checked"},
 				Bound: "streams of 1-3 concrete documents from 6 shapes (empty map, nested lists/maps, empty containers, floats, negative ints, list of tables) through each of the 5 stream codecs (encode, decode, normalize): same stream back, same count; the codecs are the engine's native boundary (real functions on concrete data)"},
+			{Pkg: "bkl", Func: "HarnessC04_mergevalues", Tiers: "qt", Covers: []string{"mergevalues.checked"},
+				Bound: "<<: [*m1, *m2] where the merged maps hold, under shared keys {a,b}, a distinct scalar, the SAME scalar, a map or a list, with an optional local key: equals the expanded mapping (whole values copied, earlier entry wins, local wins; no deep merge, no concatenation, no rejection)"},
 			{Pkg: "bkl", Func: "HarnessC04_mergekeys", Tiers: "qt", Covers: []string{"mergekey.single", "mergekey.list"},
 				Bound: "YAML mapping nodes with << (alias to a map / list of two aliases), keys {a,b,c}, local keys before or after the merge key: equals the expanded mapping"},
 		},
@@ -190,6 +198,8 @@ func init() {
 				Bound: "document {<k>:{x:T,\"p.q\":T2}, h:HOST, o:1} where <k> is EVERY lower-case letter (a symbolic byte); T any tree of depth<=1 (quick) / 2 (thorough); 9 reference spellings (map $merge with dotted / list path / list path through a dotted key, map $replace, $merge: and $replace: strings, list-entry $merge / $replace, YAML flow-list path); local content any subset of {a,b}; compared with the hand-inlined twin through the same pipeline; the target's own output unchanged"},
 			{Pkg: "bkl", Func: "HarnessC10_cross", Tiers: "qt", Covers: []string{"cross.unique", "cross.ambiguous"},
 				Bound: "streams of 2-3 documents with ids; $merge/$replace in {$match,$path} form with a dotted-string or list $path and in [pattern, path...] form, target two levels down next to a literal key \"t.u\"; zero, one or two matching documents"},
+			{Pkg: "bkl", Func: "HarnessC10_listref", Tiers: "qt", Covers: []string{"listref.checked"},
+				Bound: "a list holding a list-form reference of its own, referred to (list-form $merge, map-form $replace) from a key that is evaluated before it: the referenced list comes out as when evaluated alone"},
 			{Pkg: "bkl", Func: "HarnessC10_dangling", Tiers: "qt", Covers: []string{"dangling.checked"},
 				Bound: "6 dangling paths x 4 host forms"},
 		},
@@ -263,6 +273,8 @@ func init() {
 		Harnesses: []harnessSpec{
 			{Pkg: "bkl", Func: "HarnessC09_retain", Tiers: "qt", Samples: 5, Covers: []string{"retain.checked"},
 				Bound: "per output format {json, jsonl, json-pretty, yaml, toml}: bytes returned for one input keep their content while two further inputs are evaluated, the same input gives the same bytes; natively (replay of every path) additionally 8 goroutines x 40 evaluations. The codecs are a native boundary: this harness is decided by the native replay of all 5 paths, which checks the purity assumption the other harnesses rely on"},
+			{Pkg: "bkl", Func: "HarnessC09_process", Tiers: "qt", Samples: 8, Covers: []string{"process.checked"},
+				Bound: "two evaluations in one process (one engine path: package-level state persists) of a document using $env: between them the variable changes value, is replaced by another variable (same count), one is added, or nothing changes: each evaluation equals what a fresh process gives; sync.Mutex/Once/Pool are modelled single-threaded"},
 			{Pkg: "bkl", Func: "HarnessC09_soup", Tiers: "qt", Covers: []string{"soup.output", "soup.error"},
 				Bound: "the C08 directive soup (13 directive keys x 9 argument kinds x 7 positions, alone or as upper of two layers; thorough: plus a second directive map in the same document): result under three global iteration policies applied to every range at once (reversed, rotated left, rotated right) equals the insertion-order result"},
 			{Pkg: "bkl", Func: "HarnessC09_order", Tiers: "qt", Order: true, Covers: []string{"order.output", "order.error"},
